@@ -2,7 +2,8 @@
    of the VT500 state machine).  Only statements, each closed by [exact]. *)
 From Coq Require Import NArith List Bool.
 From AV Require Import Generated.Table Spec.Utf8 Spec.Vt Model.Base Model.Parser Proofs.TableFacts
-  Proofs.VtFacts Proofs.ParserSim Proofs.VtLimits Proofs.VtCancel Proofs.VtCsi Proofs.ParserCor.
+  Proofs.VtFacts Proofs.ParserSim Proofs.VtLimits Proofs.VtCancel Proofs.VtCsi Proofs.ParserCor
+  Generated.ParserFn Proofs.ParserGen.
 Import ListNotations.
 Local Open Scope N_scope.
 
@@ -154,3 +155,28 @@ Proof. vm_compute. split; reflexivity. Qed.
 Theorem c02_example_roundtrip :
   print_params [[38; 2]; [65535]; [0]] = [51; 56; 58; 50; 59; 54; 53; 53; 51; 53; 59; 48].
 Proof. vm_compute. reflexivity. Qed.
+
+(* ---- the tie by translation --------------------------------------------------------- *)
+
+(* Generated/ParserFn.v is written on every run by tools/gen_fn_parser.py from the Rust
+   sources of Parser::{advance, process_utf8, perform_state_change, perform_action},
+   Params::{is_full, clear, push, extend} and state_change; folded over any byte string it
+   computes exactly what the hand model -- the subject of every theorem above -- computes.
+   (Parser::osc_dispatch and definitions::unpack are unsafe code: hand-modelled, token-pinned.) *)
+Theorem c02_translated_advance_is_model :
+  forall c p perf b, g_advance c p perf b = acc perf (advance c p b).
+Proof. exact g_advance_eq. Qed.
+
+Theorem c02_translated_parser_is_model :
+  forall c bs, g_run c parser_new [] bs = run c parser_new bs.
+Proof. exact translated_parser_is_model. Qed.
+
+(* hence the translated code refines the specification *)
+Theorem c02_translated_parser_refines_spec :
+  forall bs, Forall (fun b => b < 256) bs ->
+  option_map snd (g_run cfg_default parser_new [] bs) = Some (spec_events bs).
+Proof.
+  intros bs H. rewrite translated_parser_is_model.
+  pose proof (parser_refines_spec bs H) as E. unfold events_model in E.
+  destruct (run cfg_default parser_new bs) as [[? ?]|]; cbn in *; congruence.
+Qed.
